@@ -16,6 +16,8 @@
 EXTENDS Integers, Sequences, FiniteSets, TLC
 
 CONSTANTS Names,     \* database names as typed (upper and lower case variants)
+          BadNames,  \* the names among them that are no name of ONE directory entry ("x/y", "..", "."): a database is a
+                     \* directory under data/, so such a name would be another database's directory, or none at all
           Vals       \* row values
 
 VARIABLES dbs,       \* created databases (lower case)
@@ -39,7 +41,7 @@ SessInit == dbs = {} /\ cur = "" /\ content = <<>> /\ unsaved = {} /\ ticked = F
 
 CreateDb(n) ==
   LET d == Lower(n) IN
-  IF d \in dbs THEN res' = ERR /\ UNCHANGED <<dbs, cur, content, unsaved>>
+  IF d \in dbs \/ n \in BadNames THEN res' = ERR /\ UNCHANGED <<dbs, cur, content, unsaved>>
   ELSE /\ dbs' = dbs \cup {d}
        /\ content' = [x \in dbs \cup {d} |-> IF x = d THEN NoTable ELSE content[x]]
        /\ res' = OK /\ UNCHANGED <<cur, unsaved>>
@@ -99,7 +101,7 @@ SessNext == \/ Tick
                   \/ \E v \in Vals : Insert(v) \/ Delete(v)
 
 -----------------------------------------------------------------------------
-TypeOK == /\ dbs \subseteq {Lower(n) : n \in Names} /\ cur \in dbs \cup {""}
+TypeOK == /\ dbs \subseteq {Lower(n) : n \in Names \ BadNames} /\ cur \in dbs \cup {""}
           /\ DOMAIN content = dbs /\ unsaved \subseteq dbs
 \* isolation: a step changes the content of the selected database only
 Isolation == [][\A d \in dbs : d # cur => content'[d] = content[d]]_sessVars
